@@ -302,8 +302,23 @@ func c14History(c *Ctx) {
 				return
 			}
 			if ok {
+				// the older (regexp) reading stays admissible for p only if a node that was parsed before the registration
+				// can be on p's path: some live domain that still has the older reading shares p's text up to and
+				// including the first `\d+}` token. Otherwise every node of p is new and p is an interceptor domain.
+				alt := parsed[p]
+				if i := strings.Index(p, `\d+}`); i >= 0 && ics.Name == "std+late" {
+					prefix := p[:i+len(`\d+}`)]
+					for q, e := range modelAlt.Live {
+						if q != p && strings.HasPrefix(q, prefix) && fmt.Sprint(e.Pat) == fmt.Sprint(parsedOld[q]) && fmt.Sprint(parsedOld[q]) != fmt.Sprint(parsed[q]) {
+							alt = parsedOld[p]
+							c.Class("late_domain_may_reuse_an_older_node")
+						}
+					}
+				} else {
+					alt = parsedOld[p]
+				}
 				model.Live[p] = &Entry{Pat: parsed[p], M: map[string]*mon.Hnd{"GET": placeholderHnd}}
-				modelAlt.Live[p] = &Entry{Pat: parsedOld[p], M: map[string]*mon.Hnd{"GET": placeholderHnd}}
+				modelAlt.Live[p] = &Entry{Pat: alt, M: map[string]*mon.Hnd{"GET": placeholderHnd}}
 			}
 		} else {
 			continue
@@ -400,6 +415,32 @@ func c14Directed() []Directed {
 			}
 			if ok, p, pan := matchHost(hs, "a.example.com"); pan != nil || !ok || p["sub"] != "a" {
 				c.Violate(fmt.Sprintf("deleted literal host should now resolve to the wildcard: ok=%v params=%v panic=%v", ok, p, pan), nil)
+			}
+		}},
+		{ID: "interceptor-registered-late-applies-to-new-nodes", Run: func(c *Ctx) {
+			// a domain added before the rule `\d+` became an interceptor keeps its regexp; one added afterwards - the same
+			// domain again after a Delete, or another domain with the same parameter text - is an interceptor domain,
+			// whatever the matcher parsed earlier
+			hex := func(s string) bool { return isHexish(s) }
+			for _, second := range []string{"a.{id:\\d+}.example.com", "b.{id:\\d+}.example.com"} {
+				hs := mux.NewHosts(false)
+				hs.Add("a.{id:\\d+}.example.com")
+				if ok, _, _ := matchHost(hs, "a.abc.example.com"); ok {
+					c.Violate("regexp domain matches a non-digit host", nil)
+					return
+				}
+				hs.RegisterInterceptor(hex, "\\d+")
+				if second[0] == 'a' {
+					hs.Delete(second)
+				}
+				hs.Add(second)
+				host := second[:1] + ".abc.example.com"
+				c.Eval()
+				c.Class("late_interceptor_directed")
+				if ok, p, _ := matchHost(hs, host); !ok || p["id"] != "abc" {
+					c.Violate(fmt.Sprintf("domain %q was added after the rule \\d+ had been registered as an interceptor (accepting hex text), yet Match(%q)=%v params=%v", second, host, ok, p), nil)
+					return
+				}
 			}
 		}},
 		{ID: "port-and-ipv6", Run: func(c *Ctx) {
